@@ -9,6 +9,7 @@ COMPONENTS = ['schema table REGENERATED from /repo/eaopack/*.py by harness/schem
 RULE = ('every (de)serialisable class x parameter forms (scalars, interval dicts with naive/aware datetimes, numpy arrays, DatetimeIndex, price keys; all options) before and after a set-up call: save, load, re-save, compare problems for 2 grids/prices exactly; portfolios with naive and zone-aware own grids; '
         'stream dst: portfolio-owned grids on zones with daylight saving time (incl. southern hemisphere and a 30 min shift) whose start and/or end are zone-aware time stamps (Timestamp, datetime, zoneinfo datetime, fixed UTC offset) at the switches - first and second occurrence of the repeated span, its borders, the neighbours of the gap - with and without the timezone keyword, steps 15min/30min/h/2h/d; on grids given by zoneinfo datetimes the asset dates are zoneinfo datetimes too (known finding F-11f: violations of that cause carry the fact kind=zoneinfo_dates); the grid oracle compares the time points as instants AND as local times with UTC offset, the zone of the points AND the tz attribute, start/end, T, dt, Dt, unit, freq; '
         'stream sweep: every constructor parameter of every class of the regenerated schema table (underscore parameters included; CHP classes with _no_heat on one node and on power+fuel nodes; nodes with commodity and unit) occurs with another value than its default - asserted by the case `coverage` against the schema table and inspect.signature: a parameter never exercised is written to the evidence as feature param-gap:<Class>.<param> (param-exempt: with the reason in harness/comp/serial.py EXEMPT) and printed as COVERAGE-GAP, it is not a violation; feature param:<Class>.<param> counts the cases in which the object with that parameter was built, saved and loaded; '
+        'stream dates (harness/comp/datecont.py): date CONTAINERS of every kind inside interval data (min_take / max_take, capacity and cost dictionaries), orders of order books and asset windows - lists and numpy OBJECT arrays of zone-aware Timestamps / datetimes (DatetimeIndex.to_numpy()), zone-aware DatetimeIndex without and WITH a frequency (date ranges with calendar frequencies D, 2D, W, MS and 12h: local midnights, not equidistant as instants over a daylight-saving switch), datetime64 arrays and naive containers, start and end in different containers, dates in the zone of the grid or in another zone (same instants), also inside scaled and structured assets - on grids in zones that mostly have an offset to UTC (northern / southern hemisphere, 30 min offset), placed around the spring / autumn switch or anywhere in the year, second grid in the same or another zone; decided by the oracles of the statement: what was saved can be loaded (c11-load), re-saving reproduces the JSON (c11-resave), the PROBLEM (A, b, c, bounds, mapping) of the loaded object equals that of the original exactly on both grids and on the own grid (c11-problem, c11-grid, c11-optimise); the value codec stream also draws object arrays of time stamps and zone-aware indices with calendar frequencies (compared by instants AND zones); '
         'non-trivial = object with at least one non-default structured parameter that round-trips to an identical problem; distinct by case hash')
 ASSUMPTIONS = ['strftime/strptime modelled as a lawful codec on whole seconds (tested on the real code by the codec oracle)']
 MODELLED = ['float repr round trip of json; pandas zone handling']
